@@ -70,6 +70,9 @@ def gen_cases(tier, seed):
             if role == "client" and hb:
                 continue
             cases.append({"role": role, "scenario": scn, "hb": hb, "double": False, "mix": 0})
+    # two same-key invocations blocked in one poll: the only place where one reroute_invocations call handles a batch
+    cases.append({"role": "claim", "scenario": "cc", "hb": 1, "double": False, "mix": 1})
+    cases.append({"role": "ppr", "scenario": "cc", "hb": 1, "double": False, "mix": 1})
     if tier == "thorough":
         for role, scn in SCENARIOS:
             for mix in (1, 2):
@@ -518,7 +521,18 @@ def one_run(case, td, tag, crash_at, clock, hooks, V, distinct, double_at=None):
             kind, cat = ('none' if crash_at is None else ('double' if double_at is not None else 'yes')), last_cat
             if first_crash is not None and iid in first_crash and classify_static(first_crash[iid]) == "NEITHER" and first_crash[iid][0] == s_then[0] and min(first_crash[iid][2], 1) == min(s_then[2], 1):
                 kind, cat = "yes", first_cat      # already stranded by the first crash; the second one did not touch it
-            mech = f"at={s_then[0]}/q{min(s_then[2], 1)}:after={cat}:crash={kind}"
+            # the write-then-push windows (REROUTED / RETRY / KILLED, REGISTERED after a pop) hold one invocation at a time on
+            # the code as listed in known_findings.json: several invocations caught in the same window by one crash is a
+            # different (wider) mechanism and must not be absorbed by the listed one
+            ref = first_crash if (kind == "yes" and double_at is not None) else at_crash
+            same = 1
+            if s_then[0] in ("REROUTED", "RETRY", "KILLED", "REGISTERED"):
+                same = sum(1 for j in accepted if j in ref and ref[j][0] == s_then[0] and min(ref[j][2], 1) == min(s_then[2], 1)
+                           and classify_static(ref[j]) == "NEITHER" and after[j][0] not in FINAL
+                           and not (ref is at_crash and first_crash is not None and j in first_crash and classify_static(first_crash[j]) == "NEITHER"
+                                    and first_crash[j][0] == ref[j][0]))
+            mult = f"x{same}" if same > 1 else ""
+            mech = f"at={s_then[0]}/q{min(s_then[2], 1)}{mult}:after={cat}:crash={kind}"
             V.append({"sig": f"stranded:{case['role']}/{case['scenario']}:{mech}",
                       "what": f"accepted invocation '{key}' is {s_now[0]} (not final) after recovery + drain; at the crash instant (after effect: {last_label}) it was {s_then} [{cls}]",
                       "witness": {**wit_base, "key": key, "at_crash": {accepted[i]: list(v) for i, v in at_crash.items()}, "after": {accepted[i]: list(v) for i, v in after.items()}}})
